@@ -363,3 +363,27 @@ Example C14_ex_ambiguous_ks_not_merged :
     build_modules_for_cds [mkComp 1 [] 1 10; mkComp 40 [] 2 20] = Ok c /\
     combine_modules true c p = Ok (None, p, c).
 Proof. exact ambiguous_ks_combine_example. Qed.
+
+
+(* ---- domain_identification.generate_domains: the loop that merges modules across gene boundaries.  Only a gene and the
+   gene met directly before it (same region, both with modules) are handed to combine_modules; a gene without hits
+   resets the chain; a gene WITH hits that form no module still becomes `prev` (so its neighbours are not merged over
+   it): the variant that skips it (seeded change of round 6) merges KS AT | docking only | KR ACP into one module *)
+Theorem C14_generate_gap_resets_chain : forall stale st, gd_step stale st (mkGI [] false 0 0) =
+  match st with Ok (acc, _) => Ok (acc ++ [None], None) | Err k => Err k end.
+Proof. exact gd_step_gap. Qed.
+Print Assumptions C14_generate_gap_resets_chain.
+
+Theorem C14_generate_single_gene : forall g, (nonempty (g_doms g) || g_motifs g) = true ->
+  generate_modules [g] = do ms <- build_modules_for_cds (g_doms g); Ok [Some (filter (fun m => 1 <? zlen (m_comps m)) ms)].
+Proof. exact generate_single. Qed.
+Print Assumptions C14_generate_single_gene.
+
+Theorem C14_generate_stale_prev_refuted : exists genes,
+  generate_modules genes <> generate_modules_gen true genes /\
+  match generate_modules genes with
+  | Ok [Some [m1]; Some []; Some [m3]] => map cid (m_comps m1) = [0; 1] /\ map cid (m_comps m3) = [3; 4]
+  | _ => False
+  end.
+Proof. exact generate_stale_prev_differs. Qed.
+Print Assumptions C14_generate_stale_prev_refuted.
